@@ -10,7 +10,8 @@
      read_jobs (HashMap grouping)  -> read_jobs_ord ord rows: the job order is the iteration order of a std HashMap,
                                       i.e. arbitrary; `ord` is that order (any arrangement of the distinct ids) and the
                                       theorems quantify over it.  read_jobs uses first-occurrence order.
-     read_vehicles                 -> veh_of_row / read_vehicles  (vehicle ids = "<PROFILE>_<seq>", seq = 1..=AMOUNT)
+     read_vehicles                 -> veh_of_row / read_vehicles  (vehicle ids = "<ID>_<seq>", seq = 1..=AMOUNT; since the
+                                      repair 9df6aa4 — before it the PROFILE name was used, finding C11-F1)
      read_csv_problem              -> read_csv_ord / read_csv (profiles: HashSet order, again arbitrary -> first occurrence)
    run_csv is the entry point of the correspondence: enc_Problem of the imported problem, or None for the panic. *)
 From Coq Require Import DecimalString Decimal.
@@ -69,9 +70,9 @@ Definition read_jobs_ord (ord : list string) (rows : list JobRow) : list Job := 
 Definition read_jobs (rows : list JobRow) : list Job := read_jobs_ord (job_ids rows) rows.
 
 Definition dec_string_of_nat (n : nat) : string := NilEmpty.string_of_uint (Nat.to_uint n).
-Definition vehicle_id (profile : string) (k : nat) : string := profile ++ "_" ++ dec_string_of_nat k.
+Definition vehicle_id (type_id : string) (k : nat) : string := type_id ++ "_" ++ dec_string_of_nat k.
 Definition vehicle_ids_of (r : VehRow) : list string :=
-  map (vehicle_id (vr_profile r)) (seq 1 (Z.to_nat (usizev (vr_amount r)))).
+  map (vehicle_id (vr_id r)) (seq 1 (Z.to_nat (usizev (vr_amount r)))).
 
 (* f64 literals of the source: 25., 0.0002, 0.005 *)
 Definition csv_costs : VehicleCosts :=
